@@ -73,6 +73,7 @@ class Prog:
         self.files = []            # (name, text)
         self.ctx = []              # parallel to lines: context tag of each line
         self.macro_invoked = set()
+        self.file_ctx = {}         # file index -> "if_taken" / "if_untaken" when the .include sits inside a conditional
 
     def add(self, text, ctx="top"):
         self.lines.append(text)
@@ -163,6 +164,13 @@ def structured_program(draw, pools, cpus=None, align_data=True, repeats=True):
             p.add(".if %d" % (1 if taken else 0), "ifdir")
             for t in body("if", draw(_st.integers(1, 3))):
                 p.add(t, "if_taken" if taken else "if_untaken")
+            if draw(_st.sampled_from([True, False, False])):
+                # an include file pulled in from inside the open conditional
+                name = "inc%d.inc" % len(p.files)
+                text = (".list\n" if align_data else "") + "\n".join(body("inc", draw(_st.integers(1, 3)))) + "\n"
+                p.file_ctx[len(p.files)] = "if_taken" if taken else "if_untaken"
+                p.files.append((name, text))
+                p.add(".include \"%s\"" % name, "if_taken" if taken else "if_untaken")
             if draw(_st.booleans()):
                 p.add(".else", "ifdir")
                 for t in body("else", draw(_st.integers(1, 2))):
